@@ -111,6 +111,7 @@ def map_history(seed, k, nops):
     inums = [rng.randrange(32) for _ in range(3)]
     evs = []
     ambs = []
+    kept = []
     for _ in range(nops):
         op = rng.choice(["add", "add", "decode", "decode", "retry", "retry", "clear"] if rng.random() < 0.3
                         else ["add", "decode", "decode", "retry", "retry"])
@@ -140,6 +141,7 @@ def map_history(seed, k, nops):
                     evs.append({"op": "decode", "f": f, "res": [-1, -1, -1, -1, -1, -1, -1]})
                     break
                 evs.append({"op": "decode", "f": f, "res": describe(e)})
+                kept.append((e, evs[-1]["res"]))
             else:
                 try:
                     if ambs and rng.random() < 0.5:
@@ -158,6 +160,15 @@ def map_history(seed, k, nops):
                     evs.append({"op": "retry", "f": f, "still": 1, "res": [0, 0, 0, 0, 0, 0, 0]})
                 else:
                     evs.append({"op": "retry", "f": f, "still": 0, "res": describe(r)})
+    # what was decoded earlier still describes itself the same way (later decodes / map changes do not reach into it)
+    same = 1
+    for obj, was in kept:
+        try:
+            if describe(obj) != was:
+                same = 0
+        except Exception:
+            same = 0
+    evs.append({"op": "same", "f": 0, "eq": same, "res": [0, 0, 0, 0, 0, 0, 0]})
     return {"kind": "maphist", "gen": {"seed": seed, "k": k, "nops": nops}, "ev": evs}
 
 
